@@ -393,13 +393,18 @@ fn run_op_case(sdl: &str, ops: &[String], keep_renders: bool, allow_cyclic: bool
         }
     }
     out.ok("resolve_operation_imports");
-    // loader route: emit_js = resolve_operation_imports + print_js, no check
+    // loader route: emit_js = resolve_operation_imports + (since /repo 539df4b) find_undefined_fragment_spread -> Err,
+    // then print_js; no check.  loader.rs is a bin crate (exercised as such by C19's loader-shim); here its
+    // precondition is re-stated: a document that spreads an undefined fragment is an error result, every other
+    // document goes to print_js_for_operation_document unchecked.
     {
-        let (unspread, undefined) = doc_features(&full[0]);
-        let _ = unspread;
-        match guarded(|| { let mut w = SourceWriter::new(); print_js_for_operation_document(OperationJSPrinterOptions::from_config(&Config::default()), &full[0], &mut w); w.into_buffers().buffer.len() }) {
-            Err(p) => out.panic("loader_emit_js", p, if undefined { vec!["undefined-fragment-spread"] } else { vec![] }),
-            Ok(_) => out.ok("loader_emit_js"),
+        let (_, undefined) = doc_features(&full[0]);
+        if undefined { out.err("loader_emit_js"); }
+        else {
+            match guarded(|| { let mut w = SourceWriter::new(); print_js_for_operation_document(OperationJSPrinterOptions::from_config(&Config::default()), &full[0], &mut w); w.into_buffers().buffer.len() }) {
+                Err(p) => out.panic("loader_emit_js", p, vec![]),
+                Ok(_) => out.ok("loader_emit_js"),
+            }
         }
     }
     // check
